@@ -62,6 +62,16 @@ def s_jadd(cx, rule, fn, point_type):
     dbl = [bb for bb, t in fn.calls() if t['fn']['k'] == 'def' and last(t['fn']['name']) in ('point_dbl', 'point_double')]
     cx.add(rule, inst + '/doubles', bool(dbl), 'the adder delegates the P = Q case to doubling', fn.loc())
     # doubling must require R == 0 as well: a doubling call reachable with H == 0 but R != 0 would turn P + (-P) into 2P
+    # accepted idiom: doubling guarded by bitwise equality of all three coordinates (trivially H = R = 0)
+    def raw_eq_edges(axis):
+        out = []
+        for bb, p, te, fe in G.bool_switches(fn, P):
+            if p.kind == 'eq' and len(p.args) == 2 and sorted([cn.c(p.args[0]), cn.c(p.args[1])]) == sorted(['$%s.%s' % (a, axis), '$%s.%s' % (b, axis)]):
+                out += fe if p.neg else te
+        return out
+    raw = [raw_eq_edges(ax) for ax in 'xyz']
+    if all(raw):
+        dbl = [d for d in dbl if not all(d not in fn.reachable(0, removed_edges=r) for r in raw)]
     if H and dbl:
         if R:
             r1 = fn.reachable(0, removed_edges=[x for rr in R for x in rr[2]])
